@@ -231,6 +231,9 @@ pub enum Edit {
     TrailingWs { pos: u16, count: u8, how: u8 },
     /// filler (non-unique) lines: blank, brace, repeated text
     InsertFiller { pos: u16, kind: u8, count: u8 },
+    /// move a block of lines elsewhere in the file, optionally changing its
+    /// indentation (the everyday "wrap this in a block" refactoring)
+    MoveBlock { pos: u16, count: u8, to: u16, how: u8 },
     /// flip the whole file between LF and CRLF line endings
     FlipEol,
     /// toggle the final newline
@@ -251,6 +254,7 @@ impl Edit {
             Edit::Reindent { .. } => "reindent",
             Edit::TrailingWs { .. } => "trailing-ws",
             Edit::InsertFiller { .. } => "filler",
+            Edit::MoveBlock { .. } => "move-block",
             Edit::FlipEol => "flip-eol",
             Edit::ToggleFinalNewline => "toggle-final-newline",
         }
@@ -505,6 +509,45 @@ pub fn apply_edit(fs: &mut FileState, model: &mut Model, who: Actor, edit: &Edit
                 let l = filler_line(*k);
                 model.wrote(&l, who, false);
                 fs.lines.insert(i + n, l);
+            }
+        }
+        Edit::MoveBlock { pos, count, to, how } => {
+            if fs.lines.len() < 2 {
+                kind = "noop";
+            } else {
+                let i = idx(*pos, fs.lines.len());
+                let c = (*count as usize).max(1).min(fs.lines.len() - i);
+                let block: Vec<String> = fs.lines.drain(i..i + c).collect();
+                let j = ((*to as usize) * (fs.lines.len() + 1)) >> 16;
+                // A line diff may read the move either way round (the block moved, or
+                // the lines it jumped over moved): the mover is an admissible author of
+                // both; every line keeps its own author as the primary answer.
+                let (lo, hi) = if j < i { (j, i) } else { (i, j) };
+                for l in fs.lines[lo..hi].iter() {
+                    model.allow_also(l, who);
+                }
+                for jn in [i.wrapping_sub(2), i.wrapping_sub(1), i, i + 1, j.wrapping_sub(2), j.wrapping_sub(1), j, j + 1] {
+                    if let Some(l) = fs.lines.get(jn) {
+                        model.del_neighbors.entry(key_of(l)).or_default().insert(who);
+                    }
+                }
+                for (n, l) in block.into_iter().enumerate() {
+                    let (ind, body) = split_indent(&l);
+                    let new = if body.is_empty() {
+                        l.clone()
+                    } else {
+                        match how % 5 {
+                            0 => l.clone(),
+                            1 => format!("    {ind}{body}"),
+                            2 => format!("            {ind}{body}"),
+                            3 => format!("\t{ind}{body}"),
+                            _ => body.to_string(),
+                        }
+                    };
+                    model.allow_also(&new, who);
+                    model.del_neighbors.entry(key_of(&new)).or_default().insert(who);
+                    fs.lines.insert(j + n, new);
+                }
             }
         }
         Edit::FlipEol => {
